@@ -562,7 +562,7 @@ fn main() {
                 run_case(&args, &report, cs);
             } else {
                 let shards = args.by_tier(32usize, 64);
-                let per = args.by_tier(36usize, 400);
+                let per = args.by_tier(24usize, 400);
                 let a = args.clone();
                 let r = report.clone();
                 run_shards(&report, &args, shards, move |_i, s| {
@@ -572,10 +572,10 @@ fn main() {
                 });
                 if !args.extra.contains_key("selftest") {
                     let q = !args.is_thorough();
-                    report.require("cases", if q { 800 } else { 15_000 });
-                    report.require("db.insert_ok", if q { 40_000 } else { 800_000 });
-                    report.require("db.insert_nonempty", if q { 15_000 } else { 300_000 });
-                    report.require("heights_compared.nonempty", if q { 40_000 } else { 800_000 });
+                    report.require("cases", if q { 600 } else { 15_000 });
+                    report.require("db.insert_ok", if q { 25_000 } else { 800_000 });
+                    report.require("db.insert_nonempty", if q { 10_000 } else { 300_000 });
+                    report.require("heights_compared.nonempty", if q { 25_000 } else { 800_000 });
                     report.require("cases.with_restart", 50);
                     report.require("cases.with_rpc_failure", 100);
                     report.require("pager.shrinks_seen", 100);
